@@ -6,6 +6,7 @@ import (
 	"reflect"
 	"regexp"
 	"sort"
+	"sync"
 
 	"github.com/graphql-go/graphql/language/ast"
 )
@@ -340,7 +341,10 @@ type Object struct {
 	PrivateDescription string `json:"description"`
 	IsTypeOf           IsTypeOfFn
 
-	typeConfig            ObjectConfig
+	typeConfig ObjectConfig
+	// fieldsMu guards the lazily (re)built field table: after AddFieldConfig
+	// the first requests that need it may arrive on several goroutines at once.
+	fieldsMu              sync.Mutex
 	initialisedFields     bool
 	fields                FieldDefinitionMap
 	initialisedInterfaces bool
@@ -411,8 +415,10 @@ func (gt *Object) AddFieldConfig(fieldName string, fieldConfig *Field) {
 		return
 	}
 	if fields, ok := gt.typeConfig.Fields.(Fields); ok {
+		gt.fieldsMu.Lock()
 		fields[fieldName] = fieldConfig
 		gt.initialisedFields = false
+		gt.fieldsMu.Unlock()
 	}
 }
 func (gt *Object) Name() string {
@@ -425,6 +431,8 @@ func (gt *Object) String() string {
 	return gt.PrivateName
 }
 func (gt *Object) Fields() FieldDefinitionMap {
+	gt.fieldsMu.Lock()
+	defer gt.fieldsMu.Unlock()
 	if gt.initialisedFields {
 		return gt.fields
 	}
@@ -697,6 +705,7 @@ type Interface struct {
 	ResolveType        ResolveTypeFn
 
 	typeConfig        InterfaceConfig
+	fieldsMu          sync.Mutex // see Object.fieldsMu
 	initialisedFields bool
 	fields            FieldDefinitionMap
 	err               error
@@ -747,8 +756,10 @@ func (it *Interface) AddFieldConfig(fieldName string, fieldConfig *Field) {
 		return
 	}
 	if fields, ok := it.typeConfig.Fields.(Fields); ok {
+		it.fieldsMu.Lock()
 		fields[fieldName] = fieldConfig
 		it.initialisedFields = false
+		it.fieldsMu.Unlock()
 	}
 }
 
@@ -761,6 +772,8 @@ func (it *Interface) Description() string {
 }
 
 func (it *Interface) Fields() (fields FieldDefinitionMap) {
+	it.fieldsMu.Lock()
+	defer it.fieldsMu.Unlock()
 	if it.initialisedFields {
 		return it.fields
 	}
